@@ -202,6 +202,13 @@ class Service(object):
                         {sp: 'Received empty response'}
                     )
                     _logger.info("Empty response from %s when calling %s" % (sp, method))
+                    if len(self.errors) >= self.max_errors:
+                        _logger.warning("Aborting, max errors exceeded: %s" %
+                                        list(self.errors.keys()))
+                        if len(self.results):
+                            return list(self.results.values())[0]
+                        else:
+                            return False
                     continue
                 self.results.update(
                     {sp: res}
